@@ -16,11 +16,14 @@
 (*            (a field is meaningful only if its name is in `given`)         *)
 (* Request == [fields : Seq({"obs","fcst"}), inp : 1..N, axis : STRING,      *)
 (*             idx : 1..number of slices]                                    *)
-EXTENDS Integers, Sequences, FiniteSets, Rat, Calendar
+EXTENDS Integers, Sequences, FiniteSets, Rat, Calendar, Aggregators
 
 OptionNames == {"t", "d", "tod", "o", "l", "lx", "latrange", "lonrange", "elevrange", "obsrange"}
+\* -T: "T" \in given means pre-aggregation with T = <<window length in hours (Rat), -Tagg name, -Tx axis ("leadtime" | "time")>>;
+\* it is not one of the OptionNames (the subsetting options), so the universes built from OptionNames are unaffected
 NoOptions == [given |-> {}, t |-> {}, d |-> {}, tod |-> {}, o |-> {}, l |-> {}, lx |-> {},
-              latrange |-> <<0, 0>>, lonrange |-> <<0, 0>>, elevrange |-> <<0, 0>>, obsrange |-> <<Zero, Zero>>]
+              latrange |-> <<0, 0>>, lonrange |-> <<0, 0>>, elevrange |-> <<0, 0>>, obsrange |-> <<Zero, Zero>>,
+              T |-> <<Zero, "mean", "leadtime">>]
 
 TimeAxes     == {"time", "year", "month", "week", "day", "timeofday", "dayofyear", "dayofmonth", "monthofyear"}
 LeadAxes     == {"leadtime", "leadtimeday"}
@@ -84,13 +87,28 @@ Raw(D, j, f, t, l, s) ==
   LET A == AllInputs(D) IN
   IF f = "obs" /\ ~A[j].hasObs THEN At(A[FirstWithObs(D)], "obs", t, l, s) ELSE At(A[j], f, t, l, s)
 
+\* C15: with -T h every value of a file is first replaced by the aggregate of ITS OWN series over the trailing window (g - h, g] of
+\* the file's own lead times (or initialisation times, -Tx time; h in hours), whatever is selected or common afterwards; a missing
+\* value in the window makes the aggregate missing.  (Aggregators whose result is rational: sum, mean, min, max, range, ...)
+PreAggAt(I, f, t, l, s, T) ==
+  LET lead == T[3] = "leadtime"
+      grid == IF lead THEN Elems(I.leads) ELSE Elems(I.times)
+      inwin(g) == IF lead THEN Gt(R(g), Sub(R(l), T[1])) /\ g <= l
+                  ELSE Gt(R(g), Sub(R(t), Mul(T[1], R(3600)))) /\ g <= t
+      ws == SortInts({g \in grid : inwin(g)})
+  IN  AggR(T[2], Zero, [m \in DOMAIN ws |-> At(I, f, IF lead THEN t ELSE ws[m], IF lead THEN ws[m] ELSE l, s)])
+RawT(D, O, j, f, t, l, s) ==
+  IF "T" \notin O.given THEN Raw(D, j, f, t, l, s)
+  ELSE LET A == AllInputs(D) IN
+       IF f = "obs" /\ ~A[j].hasObs THEN PreAggAt(A[FirstWithObs(D)], "obs", t, l, s, O.T) ELSE PreAggAt(A[j], f, t, l, s, O.T)
+
 \* C01: fair comparison -- missing in any input (climatology included) is missing in all
 \* C03: -obsrange discards the cases whose observation lies outside the inclusive range
 Val(D, O, j, f, t, l, s) ==
-  IF \E k \in DOMAIN AllInputs(D) : IsNaN(Raw(D, k, f, t, l, s)) THEN NaN
+  IF \E k \in DOMAIN AllInputs(D) : IsNaN(RawT(D, O, k, f, t, l, s)) THEN NaN
   ELSE IF f = "obs" /\ "obsrange" \in O.given
-          /\ (Lt(Raw(D, j, f, t, l, s), O.obsrange[1]) \/ Gt(Raw(D, j, f, t, l, s), O.obsrange[2])) THEN NaN
-  ELSE Raw(D, j, f, t, l, s)
+          /\ (Lt(RawT(D, O, j, f, t, l, s), O.obsrange[1]) \/ Gt(RawT(D, O, j, f, t, l, s), O.obsrange[2])) THEN NaN
+  ELSE RawT(D, O, j, f, t, l, s)
 
 \* C14: the climatology's forecast at the same coordinates is subtracted from / divides obs and fcst
 Adj(D, O, j, f, t, l, s) ==
